@@ -472,7 +472,10 @@ def run_history(rebound, hist, wd, load_back=True):
                 pass
         except Exception as e:
             meta["skipped"].append([op[0], "exception", repr(e)[:200]])
-    # read back with the real code (Python class)
+    # the run itself is complete: record it, then read back with the real code (Python class); a death of
+    # the reader leaves meta.json without back.json
+    with open(os.path.join(wd, "meta.json"), "w") as f:
+        json.dump(meta, f)
     mark("%d readback" % len(hist["ops"]))
     back = dict(error=None)
     if load_back and os.path.exists(fn):
@@ -497,9 +500,9 @@ def run_history(rebound, hist, wd, load_back=True):
             del sa
         except Exception as e:
             back["error"] = repr(e)[:300]
+    with open(os.path.join(wd, "back.json"), "w") as f:
+        json.dump(back, f)
     meta["back"] = back
-    with open(os.path.join(wd, "meta.json"), "w") as f:
-        json.dump(meta, f)
     return meta
 
 
